@@ -37,7 +37,9 @@ var aggrArgs = []struct{ expr, typ string }{
 }
 
 func aggrStore(r *Rand) []KV {
-	pool := []KV{{"a", "bc"}, {"ab", "c"}, {"abc", ""}, {"a1", "2"}, {"a12", "2"}, {"b", "12"}, {"b1", "2"}, {"ba", "12"}, {"k1", "1"}, {"k12", "21"}, {"k2", "1"}, {"k21", "c"}, {"l", "7"}, {"m", "-3"}, {"p1", "0.5"}, {"p2", "1.5"}, {"p3", "-0.25"}}
+	pool := []KV{{"a", "bc"}, {"ab", "c"}, {"abc", ""}, {"a1", "2"}, {"a12", "2"}, {"b", "12"}, {"b1", "2"}, {"ba", "12"}, {"k1", "1"}, {"k12", "21"}, {"k2", "1"}, {"k21", "c"}, {"l", "7"}, {"m", "-3"}, {"p1", "0.5"}, {"p2", "1.5"}, {"p3", "-0.25"},
+		// values of 10 and more bytes, digit-leading keys, ':' inside: the group key must stay injective
+		{"0", "abcdefgh1z"}, {"10abcdefgh", "z"}, {"1", "0:a"}, {"11:0", "a"}, {"3:abc", "2"}, {"3", "abc2"}}
 	n := r.Intn(len(pool) + 1)
 	perm := make([]int, len(pool))
 	for i := range perm {
